@@ -55,10 +55,23 @@ fn iso_all() -> Vec<Job> {
     ]
 }
 
+fn wire_all() -> Vec<Job> {
+    vec![
+        Job { name: "wire-mem".into(), kind: JobKind::Wire { backend: Backend::Memory }, quick: 6000, thorough: 300_000 },
+        Job { name: "wire-sqlite".into(), kind: JobKind::Wire { backend: Backend::Sqlite }, quick: 1500, thorough: 80_000 },
+    ]
+}
+
 pub fn jobs_for(prop: &str) -> Vec<Job> {
     use crate::twin::TwinMode;
     match prop {
-        "C01" | "C02" | "C07" | "C08" | "C18" => seq_all(Focus::General, 1),
+        "C01" | "C02" | "C07" | "C08" => seq_all(Focus::General, 1),
+        "C18" => {
+            let mut v = seq_all(Focus::General, 1);
+            v.extend(wire_all());
+            v
+        }
+        "C15" | "C16" => wire_all(),
         "C10" | "C11" => seq_all(Focus::Snapshots, 1),
         "C12" => seq_all(Focus::Urgency, 1),
         "C06" => seq_all(Focus::Payloads, 1),
@@ -67,7 +80,11 @@ pub fn jobs_for(prop: &str) -> Vec<Job> {
             v.push(twin(TwinMode::HttpLib, 3000, 150_000));
             v
         }
-        "C20" => seq_http(Focus::General, 1),
+        "C20" => {
+            let mut v = seq_http(Focus::General, 1);
+            v.extend(wire_all());
+            v
+        }
         "C13" => vec![twin(TwinMode::Backends, 2500, 120_000)],
         "C09" => iso_all(),
         _ => vec![],
